@@ -233,6 +233,7 @@ class Trace:
         self.exit = None     # (step, code, steps_after_signal)
         self.signals_delivered = []
         self.handler_returned = []
+        self.default_action_at = None    # step at which a SIGINT met no handler (process ended by the default action)
         self.loop_exit = None
         self.threads = {}    # tid -> name
         self.finished = []   # (step, tid)
@@ -286,6 +287,8 @@ class Trace:
                     kv = dict(x.split("=", 1) for x in f[3:])
                     self.exit = (int(f[1]), int(kv["code"]), int(kv["steps_after_signal"]))
                 elif c == "G":
+                    if f[2] == "signal_default_action":
+                        self.default_action_at = int(f[1])
                     if f[2] == "signal_delivered":
                         self.signals_delivered.append(int(f[1]))
                     else:
@@ -348,7 +351,7 @@ class Result:
             return False
         if self.rc < 0:
             return True
-        return self.rc not in (0, 1, 95, 96, 98, 99)
+        return self.rc not in (0, 1, 95, 96, 97, 98, 99)
 
 
 _RUN_COUNTER = [0]
